@@ -168,6 +168,49 @@ def mk_case(cfg, which, out, tt_kind):
     return Case(coq, {'function': site, 'args': args_of(cfg, which, tt_kind), 'impl': out}, site, nontrivial=nontriv, klass=klass)
 
 
+RULE += ('; weak records: float records scaled by 1e-3..1e-6 through the model correspondence (tolerance relative to the largest model value), '
+         'alpha scaling with alpha = 2^-10..2^-30 (exact domain, tolerance 0) and alpha = 1e-3..1e-6 (float records, 1e-9)')
+
+
+def low_amplitude_cases(rep, rng, tier, cases, scales):
+    """weak records (an O(1) m/s2 record expressed in small units, alpha = 1e-3 .. 1e-6): the model correspondence of the three
+    surface functions in the tolerance domain (tolerance relative to the largest model value, so it scales with alpha^2), the
+    alpha^2 / alpha|alpha| / alpha predicate between a record and its weak copy: exact domain with alpha = 2^-k (every float
+    operation stays exact: tolerance 0), float records with alpha = 10^-e (1e-9 of the largest scaled value)"""
+    n_low, n_sc = (18, 18) if tier == 'quick' else (240, 240)
+    for k in range(n_low):
+        cfg = gen_config(rng, False, tier)
+        al = 10.0 ** (-(3 + k % 4)) * rng.choice([1.0, 1.0, 2.5, 0.4])
+        cfg = dict(cfg, vals=[float(al * v) for v in cfg['vals']])
+        which = [1, 1, 0, 1, 2, 1][k % 6]
+        r, tt_kind = run_cfg(rep, cfg, which, rng)
+        if r is not None:
+            c = mk_case(cfg, which, r, tt_kind)
+            c.klass += '/low-amplitude'
+            cases.append(c)
+    for k in range(n_sc):
+        exact = k % 3 != 2
+        cfg = gen_config(rng, exact, tier)
+        which = [1, 1, 0, 1, 1, 2][k % 6]
+        r1, tk = run_cfg(rep, cfg, which, rng)
+        if r1 is None:
+            continue
+        if exact:
+            al = 2.0 ** (-rng.choice([10, 14, 17, 20, 20, 24, 30])) * rng.choice([1.0, 1.0, -1.0, 3.0])
+        else:
+            al = 10.0 ** (-rng.choice([3, 4, 5, 6])) * rng.choice([1.0, -1.0, 2.5])
+        cfg2 = dict(cfg, vals=[float(al * v) for v in cfg['vals']])
+        r2, _ = run_cfg(rep, cfg2, which, rng)
+        if r2 is None:
+            continue
+        site = 'eqsig.surface.%s[alpha-scaling]' % FN[which]
+        a = args_of(cfg, which, tk)
+        a['alpha'] = al
+        scales.append(Case('(%d%%nat, %s, %s, %s, %s)' % (which, q(al), qmat(r1), qmat(r2), q(0 if exact else 1e-9)),
+                           {'function': site, 'args': a, 'impl': {'base': r1, 'scaled': r2}}, site,
+                           nontrivial=any(v != 0 for v in cfg['vals']), klass=site + '/low-amplitude/' + ('exact' if exact else 'tol')))
+
+
 def run(rep, rng, tier):
     from eqsig.fns import time_shift as ts
     rep.prove('Prop_C19')
@@ -256,6 +299,7 @@ def run(rep, rng, tier):
                                   {'function': site, 'args': args, 'impl': out}, site,
                                   nontrivial=any(s != 0 for s in sh) and any(v != 0 for v in vi), klass=site))
 
+    low_amplitude_cases(rep, rng, tier, cases, scales)
     rep.correspond('model.K_C19', 'check_case', cases, describe='model_out %s')
     rep.correspond('model.K_C19', 'chk_scale', scales)
     rep.correspond('model.K_C19', 'chk_row_single', rows)
